@@ -281,9 +281,15 @@ func main() {
 	r.Register("dq", runDQ(r))
 	r.Register("merge", runMerge(r))
 	r.Register("upd", runUpd(r))
+	r.Register("rrs", runRRS(r))
+	r.Register("pdns", runPDNS(r))
+	r.Register("nbns", runNBNS(r))
 	if r.Replayed() {
 		return
 	}
 	genDQ(r, rng)
+	genRRS(r, rng)
+	genPDNS(r, rng)
+	genNBNS(r, rng)
 	genMerge(r, rng)
 }
